@@ -709,6 +709,7 @@ def run_c03(ctx):
         c["tag"] = tag
         got = tap.take()
         c["sweeps"] = len(got[-1]["sweeps"]) if got else 0
+        c["tap"] = bool(tap.active and got)
         c["sweeps_per_phase"] = [len(r["sweeps"]) for r in got]
         for j, run in enumerate(got):
             if c["outcome"] == "ok" and run["end"] is not None and run["end"]["kind"] != "return":
@@ -843,6 +844,7 @@ def run_c03(ctx):
         tags[k] = tags.get(k, 0) + 1
     res.extra["cases_by_kind"] = tags
     res.extra["solver_runs"] = len(runs)
+    res.extra["solver_tap"] = {"active": tap.active, "errors_inside_the_tap": tap.broken}
     res.extra["sweeps"] = sum(len(r["sweeps"]) for r in runs)
     res.extra["distinct_nontrivial"] = len({struct_digest(c["st"]) for c in cases})
     res.samples = [{"kind": c["tag"], "outcome": c["outcome"], "exc": c["exc"], "sweeps": c["sweeps"], "kw": c.get("kw", {}),
